@@ -532,7 +532,97 @@ fn cases(check: &str, tier: &str) -> Vec<Value> {
     v
 }
 
+/// Free-running cross-check (not part of the exhaustive verdict): the same thread bodies on plain OS
+/// threads under the real scheduler, no controlled scheduling.  Looks for failures of the same
+/// oracles and gives a race detector (helgrind) something to watch.
+fn free_run(iters: usize) -> Value {
+    let pre_shared = target_image(shared_fn as *const () as u64);
+    let pre_cc = target_image(cc as *const () as u64);
+    let ks = kinds();
+    let mut runs = 0u64;
+    let mut viols: Vec<Value> = Vec::new();
+    for it in 0..iters {
+        // C04: three threads, kinds rotating through all combinations
+        let spec: Vec<Vec<(Kind, Exit)>> = (0..3).map(|t| vec![ks[(it + t * 2) % ks.len()], ks[(it / 5 + t) % ks.len()]]).collect();
+        VIOL.lock().unwrap_or_else(|p| p.into_inner()).clear();
+        CRIT.store(0, Ordering::SeqCst);
+        let hs: Vec<_> = spec
+            .iter()
+            .cloned()
+            .enumerate()
+            .map(|(t, rounds)| {
+                std::thread::spawn(move || {
+                    for (k, e) in rounds {
+                        c04_round(t, k, e);
+                    }
+                })
+            })
+            .collect();
+        for h in hs {
+            let _ = h.join();
+        }
+        runs += 1;
+        let mut v: Vec<(String, String)> = VIOL.lock().unwrap_or_else(|p| p.into_inner()).clone();
+        if target_image(shared_fn as *const () as u64) != pre_shared {
+            v.push(("not-restored-after-all-threads-finished".into(), "bytes differ after all threads finished".into()));
+        }
+        // C06: the main thread installs, callers call concurrently, the main thread verifies
+        let n = it % 3;
+        let callers = 2 + it % 3;
+        ADMITTED.store(0, Ordering::SeqCst);
+        REJECTED.store(0, Ordering::SeqCst);
+        ODD.store(0, Ordering::SeqCst);
+        let r = catch_unwind(AssertUnwindSafe(|| {
+            let mut injector = InjectorPP::new();
+            install_times(&mut injector, n);
+            let hs: Vec<_> = (0..callers)
+                .map(|_| {
+                    std::thread::spawn(|| match catch_unwind(|| cc(1)) {
+                        Ok(0xFA) => {
+                            ADMITTED.fetch_add(1, Ordering::SeqCst);
+                        }
+                        Ok(_) => {
+                            ODD.fetch_add(1, Ordering::SeqCst);
+                        }
+                        Err(_) => {
+                            REJECTED.fetch_add(1, Ordering::SeqCst);
+                        }
+                    })
+                })
+                .collect();
+            for h in hs {
+                let _ = h.join();
+            }
+            drop(injector);
+        }));
+        runs += 1;
+        let (a, rj, o) = (ADMITTED.load(Ordering::SeqCst) as usize, REJECTED.load(Ordering::SeqCst) as usize, ODD.load(Ordering::SeqCst));
+        if a != callers.min(n) || rj != callers - callers.min(n) || o != 0 {
+            v.push(("admission-count".into(), format!("free run: {callers} concurrent calls against times: {n}: {a} admitted, {rj} rejected, {o} other")));
+        }
+        if r.is_ok() != (callers == n) {
+            v.push(("scope-exit-verdict".into(), format!("free run: {callers} calls with times: {n}: scope exit {}", if r.is_ok() { "silent" } else { "panicked" })));
+        }
+        if target_image(cc as *const () as u64) != pre_cc {
+            v.push(("not-restored-after-all-threads-finished".into(), "bytes of the counted function differ after the run".into()));
+        }
+        for (k, w) in v {
+            viols.push(json!({"key": k, "what": w, "iteration": it}));
+        }
+        if !viols.is_empty() {
+            break;
+        }
+    }
+    json!({"engine": "e2", "check": "free", "runs": runs, "violations": viols})
+}
+
 fn main() {
+    if std::env::args().nth(1).as_deref() == Some("free") {
+        isolate::quiet_panics();
+        let iters: usize = std::env::args().nth(2).and_then(|s| s.parse().ok()).unwrap_or(200);
+        println!("{}", vkit::serde_json::to_string(&free_run(iters)).unwrap());
+        return;
+    }
     vkit::proc::ensure_no_aslr();
     isolate::quiet_panics();
     let mut args = std::env::args().skip(1);
@@ -554,6 +644,9 @@ fn main() {
     }
     // OS calls of the crate are scheduling points too
     inj::vaccess::venv::set_sched_hook(Some(|label| sched::point(label)));
+    if replay.is_some() {
+        sched::LENIENT_REPLAY.store(true, Ordering::SeqCst);
+    }
     let all = if let Some(f) = &replay {
         let v: Value = vkit::serde_json::from_str(&std::fs::read_to_string(f).expect("replay file")).expect("json");
         vec![v["case"].clone(), v["case"].clone()]
